@@ -33,6 +33,16 @@ def run(ctx):
     rule_R1(ctx, repo, eng)
     from .. import escape
     escape.rule_C01_E2(ctx, repo)
+    rd = ctx.rule('C01.F1', 'defaults of the wire classes: serialisation includes the witness unless told otherwise; default header hashes are 32 bytes', engine='CONST', floor=6)
+    Z32 = b'\x00' * 32
+    common.rule_defaults(rd, repo, [
+        ('bitcoin.core.CTransaction.stream_serialize', 'include_witness', True, 'serialize() of a transaction with witness data silently drops the witness (not the BIP144 form; the round trip loses it)'),
+        ('bitcoin.core.CBlock.stream_serialize', 'include_witness', True, 'serialize() of a block silently drops every witness (round trip loses them; the weight becomes 4x the stripped size)'),
+        ('bitcoin.core.CBlockHeader.__init__', 'hashPrevBlock', Z32, 'a header built without the argument cannot be constructed (the constructor asserts 32 bytes) or serialises to 79/81 bytes'),
+        ('bitcoin.core.CBlockHeader.__init__', 'hashMerkleRoot', Z32, 'a header built without the argument cannot be constructed (the constructor asserts 32 bytes) or serialises to 79/81 bytes'),
+        ('bitcoin.core.CBlock.__init__', 'hashPrevBlock', Z32, 'a block built without the argument cannot be constructed'),
+        ('bitcoin.core.CBlock.__init__', 'hashMerkleRoot', Z32, 'a block built without the argument is not recognised as "root to be computed"'),
+    ])
     ctx.not_decided += [
         'the byte values themselves (follow from layout + struct semantics, trusted)',
         'behaviour of io.BytesIO', 'encodings larger than MAX_SIZE',
